@@ -19,12 +19,12 @@ import (
 )
 
 // c07MaxLen bounds the filter length in bytes (count <= 8*c07MaxLen); set by
-// each entry (quick: 4 bytes, thorough: 16 bytes).
+// each entry (quick: 4 bytes, thorough: 8 bytes).
 var c07MaxLen int
 
 const (
 	c07LenQuick = 4
-	c07LenDeep  = 16
+	c07LenDeep  = 8
 )
 
 // c07RefLen is ceil(count/8) computed in 32 bits (cannot wrap).
@@ -80,6 +80,7 @@ func c07Filter() (*PkgFilter, int) {
 // full only when count is 0.
 func c07PkgFilterNew(maxLen int) {
 	c07MaxLen = maxLen
+	vUnwind(8*maxLen + 16)
 	count := vU16("count")
 	vAssume(int(count) <= 8*c07MaxLen)
 	f := NewPkgFilter(count)
@@ -98,6 +99,7 @@ func c07PkgFilterNew(maxLen int) {
 // VerifC07PkgFilterSet: from arbitrary contents, Set(i) adds exactly i.
 func c07PkgFilterSet(maxLen int) {
 	c07MaxLen = maxLen
+	vUnwind(8*maxLen + 16)
 	f, _ := c07Filter()
 	before := c07Copy(f.filter)
 	i, j := vU16("i"), vU16("j")
@@ -131,6 +133,7 @@ func c07PkgFilterSet(maxLen int) {
 // member", for arbitrary contents (padding bits arbitrary).
 func c07PkgFilterFull(maxLen int) {
 	c07MaxLen = maxLen
+	vUnwind(8*maxLen + 16)
 	f, _ := c07Filter()
 	want := c07RefFull(c07Bits(f.filter), f.count)
 	got := f.IsFull()
@@ -148,6 +151,7 @@ func c07PkgFilterFull(maxLen int) {
 // re-encodes to the bytes consumed.
 func c07PkgFilterCodec(maxLen int) {
 	c07MaxLen = maxLen
+	vUnwind(8*maxLen + 16)
 	f, L := c07Filter()
 	var buf bytes.Buffer
 	err := f.Encode(&buf)
